@@ -25,6 +25,21 @@ CLAIMED = {
                  "find_symmetry_operation_from_basic_bin (a self-basic bin gets the trivial operation), std::unordered_map; "
                  "rows are abstract ids; induction over histories is argued, not machine-checked"),
     },
+    "C06": {
+        "text": ("partial - decided: (a) find_basic_view_segment_numbers maps every view-segment of the data to a representative that lies in "
+                 "the data, is related to it by the enabled symmetries only, is a fixed point (idempotence lemma) and the 'changed' flag "
+                 "is truthful; (b) get_related_view_segment_numbers of a basic view-segment lists exactly its class: members in the data, "
+                 "pairwise distinct, each mapping back to it, complete (lemma), count equal to num_related_view_segment_numbers; "
+                 "(c) find_basic_vs_nums_in_subset emits a view-segment exactly once iff it is basic, in the segment range and in the "
+                 "subset's residue class (loop contracts, unbounded in views/segments; parametric in num_subsets), never once per TOF bin; "
+                 "(d) every view lies in exactly one subset; (e) get_subset_num returns a subset in range in every state reachable after "
+                 "set_up (also randomised order and any start sub-iteration) and, non-randomised, two different sub-iterations of one full "
+                 "iteration use different subsets for any start subset. All symmetry switches symbolic. Not decided: the 'balanced' report, "
+                 "that the driver passes the value on, other symmetry classes."),
+        "note": ("trusted: cbmc 6.11.0 + kissat; SYM_VALID as established by the constructor (read from source); view range [0,num_views), "
+                 "symmetric segment range; randomly_permute_subset_order delivers a permutation (assumed); std::vector modelled by "
+                 "bounded array / ghost counters; parametric: num_subsets swept as constants"),
+    },
     "C09": {
         "text": ("partial - border clause only: for every one of the 45 neighbourhood-bound sites in Quadratic/RelativeDifference/"
                  "Logcosh priors the extracted bound expressions satisfy, for all ints (|.|<2^28): every visited offset d addresses "
@@ -38,7 +53,7 @@ CLAIMED = {
 
 _PENDING = "claimed in DESIGN.md but the check is not built yet in this commit; will move to checks when it exists"
 NOT_APPLICABLE = {
-    "C01": _PENDING, "C02": _PENDING, "C06": _PENDING, "C08": _PENDING, "C10": _PENDING, "C20": _PENDING,
+    "C01": _PENDING, "C02": _PENDING, "C08": _PENDING, "C10": _PENDING, "C20": _PENDING,
     "C04": "linearity/adjointness/additivity are equalities up to floating-point reassociation between long accumulations through virtual projector classes; bit-precise CBMC cannot state 'up to rounding' compositionally nor close the Siddon/interpolation loops; no leaf contract decides it",
     "C05": "value/gradient/Hessian are float sums over all bins with log(), reached only through virtual objective-function/projector objects; CBMC's libm model leaves log unconstrained; element-wise kernels do not decide the textbook equality",
     "C07": "EM update is spread over array expressions, back projection and sensitivity caches behind virtual calls; monotonicity/count preservation are real-analysis facts that do not survive bit-precise float semantics; the schedule part of restartability is decided under C06",
